@@ -3,6 +3,8 @@ import PolyVerif.Model.Solids
 import PolyVerif.Model.SolidsOracle
 import PolyVerif.Model.SolidsCode
 import PolyVerif.Gen.CubeTable
+import PolyVerif.Model.SolidsNodes
+import PolyVerif.Gen.PrimNodes
 
 /-
   C18 driver.  Request lines (tokens blank-separated, ints decimal, float64 as 16 hex digits, lists
@@ -17,6 +19,13 @@ import PolyVerif.Gen.CubeTable
     c18.pos.<kind> <params> <scalars>         → `n x0 y0 z0 …`
     c18.nrm.<kind> <params> <scalars>         → `n x0 y0 z0 …`      (sphere, cyl both caps, cubew, cubeq)
     c18.merge.<kind> <params>                 → `n c0 c1 …`  class representative of every vertex under the model's merge map
+  node-wrapper lines (the request carries only the CONNECTED ports, `-` = not connected; defaults, clamps and the choice
+  of constructor come from the interpretation of the REGENERATED `Process()` programs `Gen/PrimNodes.lean`, which
+  `Props/C18Nodes.lean` proves equal to the hand model `Model/SolidsNodes.lean`):
+    <ports> ::= sphere: radius rows cols weld | hemi: rows cols radius capped | cyl: sides height radius top bottom
+              | cube: width height depth
+    c18.nodetris.<sphere|hemi|cyl|cube> <ports>   → as c18.tris of the constructor the wrapper calls
+    c18.nodenv.<..> <ports>, c18.nodepos.<..> <ports>
   oracle lines (args carry the implementation's mesh; answer true/false):
     c18.holds.closed_mod_merge <kind> <params> <idx>
     c18.holds.closed_by_position <classes> <idx>
@@ -210,6 +219,62 @@ def volumeSpec (k : Kind) (sc : Array Float) : Option (Float × Float × Float) 
       let v := sc.getD 0 nan * sc.getD 1 nan * sc.getD 2 nan
       some (v, v, 1e-12)
 
+/-! ### node wrappers -/
+open PolyVerif.NodeIR in
+/-- optional port tokens: `-` = not connected -/
+def rdOptInt (a : Toks) (i : Nat) : Option (Option Int × Nat) := do
+  let s ← a[i]?
+  if s = "-" then pure (none, i + 1) else
+  let n ← s.toInt?
+  pure (some n, i + 1)
+
+def rdOptFloat (a : Toks) (i : Nat) : Option (Option Float × Nat) := do
+  let s ← a[i]?
+  if s = "-" then pure (none, i + 1) else
+  let f ← hexF? s
+  pure (some f, i + 1)
+
+def rdOptBool (a : Toks) (i : Nat) : Option (Option Bool × Nat) := do
+  let s ← a[i]?
+  if s = "-" then pure (none, i + 1) else
+  if s = "0" then pure (some false, i + 1) else if s = "1" then pure (some true, i + 1) else none
+
+open PolyVerif.NodeIR in
+/-- the constructor call a wrapper makes → the kind / parameters / scalars of the model lines.  Negative counts behave
+    like 0 in the constructors (they panic, or loop zero times), hence `Int.toNat`. -/
+def kindOfOutcome (o : Outcome Float) : Option (Kind × Array Float) :=
+  match o.fn, o.recv, o.args with
+  | "UVSphere", [], [.flt r, .int ro, .int c] => some (.sphere ro.toNat c.toNat, #[r])
+  | "UVSphereUnwelded", [], [.flt r, .int ro, .int c] => some (.sphereu ro.toNat c.toNat, #[r])
+  | "Hemisphere.UV", [("Radius", .flt r), ("Capped", .bool _)], [.int ro, .int c] => some (.hemi ro.toNat c.toNat, #[r])
+  | "Cylinder.ToMesh", [("Radius", .flt r), ("Height", .flt h), ("Sides", .int s), ("NoTop", .bool nt),
+      ("NoBottom", .bool nb)], [] => some (.cyl s.toNat nt nb, #[r, h])
+  | "Cube.UnweldedQuads", [("Height", .flt h), ("Width", .flt w), ("Depth", .flt d)], [] => some (.cubeq, #[w, h, d])
+  | _, _, _ => none
+
+open PolyVerif.NodeIR in
+/-- run the REGENERATED `Process()` program of the wrapper on the request's ports -/
+def rdNode (nk : String) (a : Toks) (i : Nat) : Option ((Kind × Array Float) × Nat) :=
+  match nk with
+  | "sphere" => do
+      let (r, i) ← rdOptFloat a i; let (ro, i) ← rdOptInt a i; let (c, i) ← rdOptInt a i; let (w, i) ← rdOptBool a i
+      let o ← run PolyVerif.Gen.PrimNodes.uvSphereNode (uvSphereNodePorts ⟨r, ro, c, w⟩)
+      pure (← kindOfOutcome o, i)
+  | "hemi" => do
+      let (ro, i) ← rdOptInt a i; let (c, i) ← rdOptInt a i; let (r, i) ← rdOptFloat a i; let (cp, i) ← rdOptBool a i
+      let o ← run PolyVerif.Gen.PrimNodes.hemisphereNode (hemisphereNodePorts ⟨ro, c, r, cp⟩)
+      pure (← kindOfOutcome o, i)
+  | "cyl" => do
+      let (s, i) ← rdOptInt a i; let (h, i) ← rdOptFloat a i; let (r, i) ← rdOptFloat a i
+      let (t, i) ← rdOptBool a i; let (b, i) ← rdOptBool a i
+      let o ← run PolyVerif.Gen.PrimNodes.cylinderNode (cylinderNodePorts ⟨s, h, r, t, b⟩)
+      pure (← kindOfOutcome o, i)
+  | "cube" => do
+      let (w, i) ← rdOptFloat a i; let (h, i) ← rdOptFloat a i; let (d, i) ← rdOptFloat a i
+      let o ← run PolyVerif.Gen.PrimNodes.cubeNode (cubeNodePorts ⟨w, h, d⟩)
+      pure (← kindOfOutcome o, i)
+  | _ => none
+
 def done (a : Toks) (i : Nat) : Option Unit := if i = a.size then some () else none
 
 /-- one request → one answer line; `none` = unknown op / malformed -/
@@ -224,6 +289,20 @@ def handle (op : String) (args : List String) : Option String := do
       let (k, i) ← rdKind kn a 0
       done a i
       if admissible k then pure (toString (modelNV k)) else pure "panic"
+  | ["c18", "nodetris", nk] => do
+      let ((k, _), i) ← rdNode nk a 0
+      done a i
+      if admissible k then pure (natsStr (modelFlat k)) else pure "panic"
+  | ["c18", "nodenv", nk] => do
+      let ((k, _), i) ← rdNode nk a 0
+      done a i
+      if admissible k then pure (toString (modelNV k)) else pure "panic"
+  | ["c18", "nodepos", nk] => do
+      let ((k, sc), i) ← rdNode nk a 0
+      done a i
+      if !admissible k then pure "panic" else
+      let f ← modelPos k sc
+      pure (v3sStr (modelNV k) f)
   | ["c18", "pos", kn] => do
       let (k, i) ← rdKind kn a 0
       let (sc, i) ← rdScalars k a i
